@@ -14,6 +14,8 @@
 //!        sign_with_deterministic_k, to_compact_bytes(None), from_compact_bytes, recover_public_key(msg2, hash2);
 //!        same = 1 when the recovered key's bytes equal the signer's to_public_key() bytes
 //!   sig.sign_recover_digest key comp msg hash rk digest -> OK:<same>;<pubkey> | OK:E   as sign_recover, through recover_public_key_from_digest
+//!   sig.cross signer key comp msg hash rk aux route entry -> OK:<same>;<pubkey> | OK:E   every signing entry point (see ops_c05.rs
+//!        produce) through recovery: route mem | cmp, entry m (message) | d (digest)
 //!   sig.compact_der der info            -> OK:<65 bytes>   from_der (no recovery info), to_compact_bytes(info); info = n | <recid><c>
 //!   sig.signed key comp msg hash rk info msg2 hash2 -> OK:<65 bytes>;<K<pubkey>|E>;<v>   in-memory signer output: to_compact_bytes(info),
 //!        recover_public_key(msg2, hash2), verify_message(msg2, own key)
@@ -21,7 +23,7 @@
 //!   sighashsig.roundtrip r s flag       -> OK:<bytes>;<bytes'>  SighashSignature::new(..).to_bytes, from_bytes, to_bytes again
 //!   sighashsig.parse bytes              -> OK:<bytes'>          from_bytes(bytes).to_bytes(); to_hex must agree
 //! hdr = first byte of to_compact_bytes(None), decimal.
-use crate::ops_c05::{key_of, sig_fields, sig_of};
+use crate::ops_c05::{digest_for, key_of, produce, sig_fields, sig_of};
 use crate::util::*;
 use bsv::{RecoveryInfo, SigHash, SighashSignature, Signature, SigningHash, ECDSA};
 
@@ -198,6 +200,30 @@ pub fn run(op: &str, args: &[String]) -> Option<String> {
             let back = okk!(Signature::from_compact_bytes(&c));
             let own = okk!(okk!(key.to_public_key()).to_bytes());
             match back.recover_public_key(&msg2, h2) {
+                Ok(p) => {
+                    let pb = okk!(p.to_bytes());
+                    format!("OK:{};{}", (pb == own) as u8, show_bytes(&pb))
+                }
+                Err(_) => "OK:E".into(),
+            }
+        }
+        "sig.cross" => {
+            // <7 production args> route entry:  route = mem (the signer's object) | cmp (to_compact_bytes(None), from_compact_bytes);
+            // entry = m (recover_public_key(msg, hash)) | d (recover_public_key_from_digest(hash(msg)))
+            let (key, sig, h) = okk!(some!(produce(args, 0)));
+            let msg = some!(arg_bytes(args, 3));
+            let obj = match some!(args.get(7)).as_str() {
+                "mem" => sig,
+                "cmp" => okk!(Signature::from_compact_bytes(&sig.to_compact_bytes(None))),
+                _ => return Some("BADARG".into()),
+            };
+            let rec = match some!(args.get(8)).as_str() {
+                "m" => obj.recover_public_key(&msg, h),
+                "d" => obj.recover_public_key_from_digest(&digest_for(h, &msg)),
+                _ => return Some("BADARG".into()),
+            };
+            let own = okk!(okk!(key.to_public_key()).to_bytes());
+            match rec {
                 Ok(p) => {
                     let pb = okk!(p.to_bytes());
                     format!("OK:{};{}", (pb == own) as u8, show_bytes(&pb))
